@@ -77,6 +77,10 @@ type TransportParameters struct {
 	MaxBidiStreamNum protocol.StreamNum
 
 	MaxIdleTimeout time.Duration
+	// AdvertisedMaxIdleTimeout is the max_idle_timeout exactly as advertised by the peer.
+	// It is only set when parsing: MaxIdleTimeout is raised to protocol.MinRemoteIdleTimeout there,
+	// but the peer will time out after the duration it advertised, which matters when sending keep-alives.
+	AdvertisedMaxIdleTimeout time.Duration
 
 	PreferredAddress *PreferredAddress
 
@@ -320,7 +324,8 @@ func (p *TransportParameters) readNumericTransportParameter(b []byte, paramID tr
 			return fmt.Errorf("initial_max_streams_uni too large: %d (maximum %d)", p.MaxUniStreamNum, protocol.MaxStreamCount)
 		}
 	case maxIdleTimeoutParameterID:
-		p.MaxIdleTimeout = max(protocol.MinRemoteIdleTimeout, time.Duration(val)*time.Millisecond)
+		p.AdvertisedMaxIdleTimeout = time.Duration(val) * time.Millisecond
+		p.MaxIdleTimeout = max(protocol.MinRemoteIdleTimeout, p.AdvertisedMaxIdleTimeout)
 	case maxUDPPayloadSizeParameterID:
 		if val < 1200 {
 			return fmt.Errorf("invalid value for max_udp_payload_size: %d (minimum 1200)", val)
